@@ -57,8 +57,11 @@ def run_case(case, ctx):
         labels.append("nontrivial")
     fail = None
     runs = 0
+    from .. import worker as W
     for variant in ("dbg", "rel"):
-        r = ctx.worker(variant).run(src)
+        # (one case in eight also under collect-at-every-allocation: the buffers lists move to are heap objects too)
+        sched = W.EVERY_ALLOC if (variant == "dbg" and len(src) % 8 == 0) else W.NATURAL
+        r = ctx.worker(variant).run(src, schedule=sched)
         runs += 1
         fail = compare_model(PROPERTY, res, r, src, variant)
         if fail is not None:
